@@ -21,11 +21,13 @@ PID = "C12"
 
 # ---------------------------------------------------------------- scripts as lists of atoms
 # ("mark", n) ("pad",) ("sleep", d) ("uisleep", d) ("term", var) ("termself",) ("spawn", key) ("poll", n, [vars]) ; main: ("hspawn", var, key)
+# ("selfhandle", var): `var = _thisScript`; ("preproc", [[key, handle var or None], ..]): `preprocess__ "__EVAL(h = 0 spawn {..}; ..; 1)"` -
+#   scripts spawned from inside an expression that the preprocessor evaluates at run time (runtime::evaluate_expression)
 def atom_cost(a):
     k = a[0]
     if k == "pad":
         return 1
-    if k in ("mark", "sleep", "uisleep", "term", "termself"):
+    if k in ("mark", "sleep", "uisleep", "term", "termself", "selfhandle", "preproc"):
         return 2
     if k == "spawn":
         return 3
@@ -131,14 +133,108 @@ def selfterm_cases(slice_len):
     return out
 
 
+def eval_spawn_cases(slice_len):
+    """scripts spawned from inside an expression that the preprocessor evaluates at run time (preprocess__ "__EVAL(..)"):
+    from the main script and from a spawned script, one and two spawns in the expression, the handle kept through an assignment
+    in the expression or set by the spawned script itself, short / sleeping / longer-than-a-slice children, with a busy neighbour
+    and a scriptDone monitor"""
+    out = []
+    shapes = {"short": lambda c: [("mark", c()), ("mark", c()), ("mark", c())],
+              "sleeping": lambda c: [("mark", c()), ("sleep", 1), ("mark", c()), ("mark", c())],
+              "long": lambda c: [("mark", c()) for _ in range(slice_len // 3 + 5)]}
+    for origin in ("main", "spawned"):
+        for nsp in (1, 2):
+            for hk in ("expr", "self"):
+                for shape in ("short", "sleeping", "long"):
+                    for pos in ((0,) if origin == "main" else (0, slice_len - 2)):
+                        scripts, children, hvs = {}, [], []
+                        for q in range(nsp):
+                            cnt = [0]
+
+                            def counter(cnt=cnt, q=q):
+                                cnt[0] += 1
+                                return (5 + q) * 10000 + cnt[0]
+                            body = shapes[shape](counter)
+                            hv = "w%d" % (q + 1)
+                            if hk == "self":
+                                body = [("selfhandle", hv)] + body
+                            scripts["e%d" % (q + 1)] = body
+                            children.append(["e%d" % (q + 1), hv if hk == "expr" else None])
+                            hvs.append(hv)
+                        acnt = [0]
+
+                        def acounter(acnt=acnt):
+                            acnt[0] += 1
+                            return 10000 + acnt[0]
+                        scripts["a"] = fill(slice_len + 20, True, acounter)
+                        pcnt = [0]
+
+                        def pcounter(pcnt=pcnt):
+                            pcnt[0] += 1
+                            return 20000 + pcnt[0]
+                        pre = ("preproc", children)
+                        if origin == "main":
+                            main = [("hspawn", "h1", "a"), pre]
+                        else:
+                            scripts["p"] = compose(pos, pcounter) + [pre] + compose(6, pcounter)
+                            main = [("hspawn", "h1", "a"), ("hspawn", "h2", "p")]
+                        if hk == "expr":
+                            # the handles exist as soon as the expression has been evaluated: the monitor may poll them
+                            mon = [("poll", 900001 + q, hvs) for q in range(10)] + [("sleep", 3)] + [("poll", 900101 + q, hvs) for q in range(3)]
+                            scripts["mon"] = mon
+                            if origin == "main":
+                                main.append(("hspawn", "hm", "mon"))
+                        main.append(("pad",))
+                        if hk == "expr" and origin == "spawned":
+                            # started by p itself, right after the preprocess__ call
+                            k = scripts["p"].index(pre)
+                            scripts["p"] = scripts["p"][:k + 1] + [("spawn", "mon")] + scripts["p"][k + 1:]
+                        out.append({"main": main, "scripts": scripts,
+                                    "desc": "__EVAL spawns %d script(s) (%s, handle: %s) from %s%s" % (
+                                        nsp, shape, "assigned in the expression" if hk == "expr" else "set by the script itself",
+                                        "the main script" if origin == "main" else "a spawned script @%d" % pos,
+                                        "; monitor" if hk == "expr" else "")})
+    return out
+
+
 def never_logged(case, exp_marks):
     """markers of the generated scripts that the round-robin oracle never emits: statements behind a script's termination"""
     exp = set(exp_marks)
     return set(str(a[1]) for v in case["scripts"].values() for a in v if a[0] == "mark" and str(a[1]) not in exp)
 
 
+def atoms_text(atoms):
+    """SQF text of a script that goes into a string (no double quotes): only the atoms used inside __EVAL"""
+    out = []
+    for a in atoms:
+        k = a[0]
+        if k == "mark":
+            out.append("diag_log %d" % a[1])
+        elif k == "pad":
+            out.append("0")
+        elif k == "sleep":
+            out.append("sleep %d" % a[1])
+        elif k == "selfhandle":
+            out.append("%s = _thisScript" % a[1])
+        else:
+            raise ValueError("no text form for " + k)
+    return "; ".join(out)
+
+
+def eval_text(children, scripts):
+    parts = []
+    for key, hv in children:
+        sp = "0 spawn { %s }" % atoms_text(scripts[key])
+        parts.append(("%s = %s" % (hv, sp)) if hv else sp)
+    return "__EVAL(" + "; ".join(parts) + "; 1)"
+
+
 def atom_tokens(a, scripts):
     k = a[0]
+    if k == "selfhandle":
+        return Asg(a[1], Var("_thisScript"))
+    if k == "preproc":
+        return E(Un("preprocess__", M.S(eval_text(a[1], scripts))))
     if k == "mark":
         return E(Un("diag_log", N(a[1])))
     if k == "pad":
@@ -181,6 +277,10 @@ def expand(atoms):
             ins += [("PUSH",), ("PUSH",), ("SPAWN", a[1], None)]
         elif k == "hspawn":
             ins += [("PUSH",), ("PUSH",), ("SPAWN", a[2], a[1]), ("ASSIGN", a[1])]
+        elif k == "selfhandle":
+            ins += [("GET",), ("ASSIGNSELF", a[1])]
+        elif k == "preproc":
+            ins += [("PUSH",), ("PREPROC", [tuple(x) for x in a[1]])]
         elif k == "poll":
             ins += [("PUSH",)]
             for v in a[2]:
@@ -259,6 +359,20 @@ def simulate(main_atoms, scripts, tick, slice_len):
                         c.pending = nc.id
                     elif k == "ASSIGN":
                         handles[op[1]] = c.pending
+                    elif k == "ASSIGNSELF":
+                        handles[op[1]] = c.id
+                    elif k == "PREPROC":
+                        # evaluate_expression: a context for the expression is appended and run to its end at once (inside this
+                        # operator call); the scripts it spawns are appended behind it; the emptied context is collected when
+                        # its turn comes
+                        ctxs.append(Ctx(next_id, []))
+                        next_id += 1
+                        for key, hv in op[1]:
+                            nc = Ctx(next_id, expand(scripts[key]))
+                            next_id += 1
+                            ctxs.append(nc)
+                            if hv:
+                                handles[hv] = nc.id
                     elif k == "SD":
                         tid = handles.get(op[1])
                         c.stack.append("false" if any(o.id == tid for o in ctxs) else "true")
@@ -389,6 +503,9 @@ def main(replay=None):
         # a script that terminates itself and then sleeps (the terminate request must survive the sleep)
         for case in selfterm_cases(slice_len):
             cases.append(("selfterm", case, 100000))
+        # scripts spawned from inside an expression evaluated by the preprocessor at run time
+        for case in eval_spawn_cases(slice_len):
+            cases.append(("evalspawn", case, 100000))
         # every event kind at every boundary position, single script + monitor
         for ev in ("finish", "sleep", "spawn", "termself"):
             for L in (slice_len - 1, slice_len, slice_len + 1, 2 * slice_len):
@@ -439,7 +556,7 @@ def main(replay=None):
         rep = {"case": case, "tick_us": tick, "text": (d.get("texts") or [None])[0], "impl": i_run[:3000], "model": m_run[:3000],
                "expected_markers": exp_marks[:400], "kind": kind}
         pr = SC.parse_run(i_run)
-        allatoms = [a for v in case["scripts"].values() for a in v]
+        allatoms = [a for v in case["scripts"].values() for a in v] + list(case["main"])
         has = lambda k: any(a[0] == k for a in allatoms)
         nsleep += has("sleep") or has("uisleep"); nterm += has("term") or has("termself"); nspawn += has("spawn")
         distinct.add(case["desc"] + "|" + str(tick))
@@ -455,6 +572,13 @@ def main(replay=None):
         if dead:
             rep["statements_that_must_not_run"] = dead[:10]
             run.violation("a terminated script executed %d statement(s) after its next scheduling point (first: diag_log %s)" % (len(dead), dead[0]), rep)
+            continue
+        have = set(marks)
+        missing = [m for m in exp_marks if m not in have and not m.startswith("[")]
+        if missing:
+            rep["statements_that_never_ran"] = missing[:10]
+            run.violation("a scheduled script was skipped: %d of the statements it still had to run never ran (first: diag_log %s)" % (
+                len(missing), missing[0]), rep)
             continue
         if marks != exp_marks:
             k = next((n for n, (a, b) in enumerate(zip(marks, exp_marks)) if a != b), min(len(marks), len(exp_marks)))
@@ -472,8 +596,9 @@ def main(replay=None):
         if why:
             run.violation(why, rep)
             continue
-        # 2. correspondence (uiSleep is not in the modelled fragment: those cases are judged by the oracle alone)
-        if has("uisleep"):
+        # 2. correspondence (uiSleep and preprocess__/__EVAL - a nested evaluate_expression - are not in the modelled fragment:
+        #    those cases are judged by the round-robin oracle alone)
+        if has("uisleep") or has("preproc"):
             kinds["judged_by_the_oracle_alone"] = kinds.get("judged_by_the_oracle_alone", 0) + 1
             continue
         if not SC.same_obs(d["m_obs"], d["i_obs"]):
@@ -496,7 +621,10 @@ def main(replay=None):
                        "instruction position around the slice boundaries, an optional monitor "
                        "script polling scriptDone of all handles (with a sleep in between), the unscheduled main script; plus every "
                        "event kind x length x position at the slice boundary for one script, and a systematic family 'terminate itself, G instructions, "
-                       "sleep' (early/late, adjacent, across the boundary, first and later slice, alone / with monitor / with a runnable neighbour). "
+                       "sleep' (early/late, adjacent, across the boundary, first and later slice, alone / with monitor / with a runnable neighbour), "
+                       "and scripts spawned from inside an expression the preprocessor evaluates at run time (preprocess__ \"__EVAL(h = 0 spawn {..})\" "
+                       "from the main script and from a spawned script, one or two spawns, handle assigned in the expression or set by the script "
+                       "itself; implementation against the oracle only, the model has no nested evaluation). "
                        "Oracles: statements behind a script's termination must never be logged; expected marker order (incl. scriptDone polls) from a Python "
                        "round-robin simulation over instruction counts; distinct by (script lengths, events, positions, tick)" % slice_len)
     run.cov["input_distribution"] = dict(kinds, with_sleep=nsleep, with_terminate=nterm, with_spawn=nspawn)
